@@ -198,11 +198,18 @@ OPTN = ("include_pitch_spelling", "include_key_signature", "include_time_signatu
 # ====================================================================== generation
 def gen_part(rng, pid, divs=None, nbars=None, pickup=False, qd_change=False, p_none_voice=0.0, p_none_staff=0.0,
              p_tie=0.2, staves=1, voices=2, empty=False, p_unp=0.03, p_rest=0.12, p_grace=0.08, p_chord=0.25, falsy=False,
-             recur=False):
+             recur=False, gap=0.0, tie_rests=0.0):
     """falsy: FALSY-BUT-VALID values - voices numbered from 0 (next to positive voices and voice=None), staff 0, octave 0 and
     -1 (pitch 0), alter 0 next to alter None, one empty id: a column must state what the score states, and a value that
     Python reads as false is a value, not a missing one.
-    recur: the time signatures (and the key) RETURN to an earlier value (A B A, different beat types)"""
+    recur: the time signatures (and the key) RETURN to an earlier value (A B A, different beat types)
+    gap (round 6, seed C05-k): probability that an open tie is NOT continued by the next note of its voice but held over
+    1-3 unrelated notes / rests (a first ending that does not continue the tie) and picked up by a later note of the
+    same pitch: a tie chain whose members are not adjacent on the timeline - its duration is the SUM of its members'
+    durations, not the span from the first start to the last end.  With gap > 0 one more link may be set by hand between
+    non-adjacent notes of different voices (tie_next / tie_prev are plain attributes).
+    tie_rests: probability of one hand-set tie link between two non-adjacent rests (each rest keeps its row; the duration
+    of the first is the chain sum, as for notes)"""
     divs = divs or rng.choice([1, 2, 3, 4, 5, 6, 8, 12, 16, 24])
     nbars = nbars or rng.randint(1, 5)
     d = {"id": pid, "divs": divs, "qd": [], "ts": [], "ks": [], "clefs": [], "notes": [], "measures": [], "extras": []}
@@ -257,6 +264,7 @@ def gen_part(rng, pid, divs=None, nbars=None, pickup=False, qd_change=False, p_n
     for v in range(vbase, vbase + voices):
         staff = rng.randint(0 if falsy else 1, staves)
         open_tie = None
+        held, hold_n = None, 0
         force_chain = 0
         for (bs, be) in bars:
             pos = bs
@@ -280,6 +288,14 @@ def gen_part(rng, pid, divs=None, nbars=None, pickup=False, qd_change=False, p_n
                 nchord = 1 + (rng.random() < p_chord) + (rng.random() < p_chord / 2)
                 used = set()
                 prev, open_tie = open_tie, None
+                if prev is not None and held is None and gap and rng.random() < gap:
+                    # the tie is held: this event does not continue it, a later note of the voice does
+                    held, hold_n, prev = prev, rng.randint(1, 3), None
+                    force_chain = 0
+                elif prev is None and held is not None:
+                    hold_n -= 1
+                    if hold_n <= 0:
+                        prev, held = held, None
                 for c in range(nchord):
                     if prev is not None and c == 0:
                         step, alter, octv = prev["step"], prev["alter"], prev["oct"]
@@ -305,6 +321,31 @@ def gen_part(rng, pid, divs=None, nbars=None, pickup=False, qd_change=False, p_n
                             if rng.random() < 0.3:
                                 force_chain = rng.randint(1, 4)
                 pos += dur
+    if gap and rng.random() < 0.4:
+        # one link set by hand between non-adjacent notes (another voice, a later bar): B takes A's pitch
+        tied_to = set(n["tie"] for n in d["notes"] if n.get("tie"))
+        As = [n for n in d["notes"] if n["kind"] == "note" and not n.get("tie")]
+        rng.shuffle(As)
+        for a in As[:6]:
+            Bs = [b for b in d["notes"] if b["kind"] == "note" and b["id"] not in tied_to and b["t"] > a["t"] + a["dur"]
+                  and b["dur"] > 0]
+            if Bs:
+                b = rng.choice(Bs)
+                b["step"], b["alter"], b["oct"] = a["step"], a["alter"], a["oct"]
+                # (the notes b is tied to keep one pitch along the chain)
+                cur = b
+                byid = {n["id"]: n for n in d["notes"]}
+                while cur.get("tie"):
+                    cur = byid[cur["tie"]]
+                    cur["step"], cur["alter"], cur["oct"] = a["step"], a["alter"], a["oct"]
+                a["tie"] = b["id"]
+                break
+    if tie_rests and rng.random() < tie_rests:
+        rs = sorted([n for n in d["notes"] if n["kind"] == "rest"], key=lambda n: n["t"])
+        pairs = [(a, b) for i, a in enumerate(rs) for b in rs[i + 1:] if b["t"] > a["t"] + a["dur"]]
+        if pairs:
+            a, b = rng.choice(pairs)
+            a["tie"] = b["id"]
     rng.shuffle(d["notes"])
     if falsy and d["notes"]:
         tied = set(n["tie"] for n in d["notes"] if n.get("tie"))
@@ -348,7 +389,7 @@ def part_kw(rng):
     return dict(pickup=rng.random() < 0.3, p_none_voice=rng.choice([0, 0, 0.2, 0.5, 1.0]),
                 p_none_staff=rng.choice([0, 0, 0.3, 1.0]), p_tie=rng.choice([0.1, 0.2, 0.5]),
                 staves=rng.choice([1, 1, 2]), voices=rng.choice([1, 2, 2, 3]), falsy=rng.random() < 0.35,
-                recur=rng.random() < 0.25)
+                recur=rng.random() < 0.25, gap=rng.choice([0, 0, 0, 0.3, 0.7]))
 
 
 INV_COLS = ("beat", "div", "both")
@@ -468,7 +509,7 @@ def gen_invx(rng, from_part=False):
     from_part: the array is the note array of a generated part whose signatures recur (gen_part(recur=True))."""
     if from_part:
         kw = part_kw(rng)
-        kw.update(recur=rng.random() < 0.8, p_unp=0.0)
+        kw.update(recur=rng.random() < 0.8, p_unp=0.0, gap=0)  # (an array cannot say that a chain has a gap)
         pd = gen_part(rng, "a", divs=rng.choice([1, 2, 3, 4, 6, 8, 12]), nbars=rng.randint(2, 5), **kw)
         return {"k": "invx", "src": "part", "part": pd, "cols": rng.choice(["both", "both", "div"]),
                 "kscols": rng.random() < 0.5, "spell": rng.random() < 0.5, "sanitize": rng.random() < 0.8}
@@ -561,6 +602,8 @@ def cases(rng, tier):
             kw.update(falsy=True, voices=max(2, kw["voices"]), p_none_voice=rng.choice([0, 0.2]))
         else:
             kw.update(recur=True)
+        # tie chains with gaps (held over unrelated notes, hand-set links): in every run, under every option vector
+        kw.update(gap=0.7, p_tie=0.5, nbars=rng.randint(3, 5))
         pd = gen_part(rng, "a", **kw)
         yield {"k": "part", "part": pd, "combos": [[bool(m >> b & 1) for b in range(7)] for m in range(128)],
                "entry": "method"}
@@ -601,7 +644,7 @@ def cases(rng, tier):
         elif r < 0.75:
             kw = part_kw(rng)
             pd = gen_part(rng, "a", divs=rng.choice([1, 2, 4, 8, 16, 3, 6, 12, 5, 10, 24]), p_rest=rng.choice([0.2, 0.5, 0.8]),
-                          qd_change=rng.random() < 0.1, **kw)
+                          qd_change=rng.random() < 0.1, tie_rests=rng.choice([0, 0, 0.6]), **kw)
             pd["musical"] = rng.random() < 0.1
             combos = [rand_opts(rng)[:6] + [rng.random() < 0.45] for _ in range(3)]
             yield {"k": "rests", "part": pd, "combos": combos, "entry": rng.choice(["method", "func", "ensure"])}
@@ -2177,6 +2220,11 @@ def distribution(descs, results):
             feats["pickup"] += bool(pd["measures"]) and len(pd["ts"]) > 0 and \
                 (pd["measures"][0][1] - pd["measures"][0][0]) < 4 * pd["ts"][0][1] * pd["divs"] // pd["ts"][0][2]
             feats["ties"] += any(n.get("tie") for n in ns)
+            byid = {n["id"]: n for n in ns}
+            gaps = [n for n in ns if n.get("tie") and byid[n["tie"]]["t"] != n["t"] + n["dur"]]
+            feats["tie_chain_with_gap"] += any(n["kind"] != "rest" for n in gaps)
+            feats["tie_chain_gap_other_voice"] += any(n["kind"] != "rest" and byid[n["tie"]].get("voice") != n.get("voice") for n in gaps)
+            feats["tied_rests_with_gap"] += any(n["kind"] == "rest" for n in gaps)
             feats["grace"] += any(n["kind"] == "grace" for n in ns)
             feats["voice_none"] += any(n.get("voice") is None for n in ns)
             feats["staff_none"] += any(n.get("staff") is None for n in ns)
